@@ -48,7 +48,7 @@ func c16Crashed(r RunResult) bool {
 func c16Kinds(ds []Diag) []string {
 	m := map[string]bool{}
 	for _, d := range ds {
-		m[MsgKind(d.Msg)] = true
+		m[c04FixKind(d.Msg)] = true
 	}
 	return sortedKeys(m)
 }
@@ -118,8 +118,18 @@ func c16Evaluate(ctx *Ctx, dir string, tf c04Files, targets []string) ([]c04Find
 	}
 	last := obs.Passes[len(obs.Passes)-1]
 	if !obs.Converged {
-		add("C16/no-fixed-point/"+strings.Join(c16FixSites(ctx, dir, cur, cfg), "+"),
-			fmt.Sprintf("[%s] after %d passes of pkglint -F the tree still changes: pass %d rewrote %v (%d AUTOFIX lines, e.g. %q)", cfg, c16MaxPasses, c16MaxPasses, last.Changed, len(last.Fixes), c16First(last.Fixes)))
+		// narrow keys: one per file that keeps changing, with the actions logged for it
+		for _, p := range last.Changed {
+			acts := map[string]bool{}
+			for _, d := range last.Fixes {
+				if filepath.Clean(d.Path) == p {
+					acts[c04FixKind(d.Msg)] = true
+				}
+			}
+			add("C16/no-fixed-point/"+c16FileKind(p)+"/"+strings.Join(sortedKeys(acts), "+"),
+				fmt.Sprintf("[%s] after %d passes of pkglint -F the tree still changes: pass %d rewrote %v (%d AUTOFIX lines, e.g. %q); %s grew from %d to %d bytes",
+					cfg, c16MaxPasses, c16MaxPasses, last.Changed, len(last.Fixes), c16First(last.Fixes), p, len(tf[p]), len(last.After[p])))
+		}
 		return fs, obs
 	}
 	if obs.Changing > c16MaxChangingPasses {
@@ -134,19 +144,71 @@ func c16Evaluate(ctx *Ctx, dir string, tf c04Files, targets []string) ([]c04Find
 		obs.Crashed = true
 		return nil, obs
 	}
-	if n := len(obs.FinalShow.Fixes); n > 0 {
-		add("C16/fixed-point-not-quiet/-f/"+strings.Join(c16Kinds(obs.FinalShow.Diags), "+"),
-			fmt.Sprintf("[%s] a further pkglint -F leaves the tree unchanged after %d passes, but pkglint -f still prints %d AUTOFIX lines, e.g. %q", cfg, obs.Changing, n, obs.FinalShow.Fixes[0].Raw))
+	// one finding per (file kind, diagnostic that owns the stuck action): narrow keys
+	stuck := c16Owners(obs.FinalShow.Res.Stdout)
+	seenKey := map[string]bool{}
+	for _, st := range stuck {
+		key := "C16/fixed-point-not-quiet/" + c16FileKind(st.fix.Path) + "/" + st.owner
+		if seenKey[key] {
+			continue
+		}
+		seenKey[key] = true
+		add(key, fmt.Sprintf("[%s] a further pkglint -F leaves the tree unchanged after %d passes, but pkglint -f still prints %q (for %q; %d AUTOFIX lines in all)",
+			cfg, obs.Changing, st.fix.Raw, st.diag, len(obs.FinalShow.Fixes)))
 	}
-	if obs.FinalDefault.HintFix || obs.FinalDefault.HintShow {
-		add("C16/fixed-point-not-quiet/hint/"+strings.Join(c16Kinds(obs.FinalShow.Diags), "+"),
-			fmt.Sprintf("[%s] a further pkglint -F leaves the tree unchanged after %d passes, but the default run still offers automatic fixing", cfg, obs.Changing))
+	if (obs.FinalDefault.HintFix || obs.FinalDefault.HintShow) && len(stuck) == 0 {
+		add("C16/fixed-point-not-quiet/hint-only",
+			fmt.Sprintf("[%s] a further pkglint -F leaves the tree unchanged after %d passes, -f shows nothing, but the default run still offers automatic fixing", cfg, obs.Changing))
 	}
-	if len(last.Fixes) > 0 {
-		add("C16/fixed-point-not-quiet/-F-logs-without-changing/"+strings.Join(c16Kinds(obs.FinalShow.Diags), "+"),
-			fmt.Sprintf("[%s] pass %d of pkglint -F printed %d AUTOFIX lines (e.g. %q) and changed nothing", cfg, len(obs.Passes), len(last.Fixes), last.Fixes[0].Raw))
+	if len(last.Fixes) > 0 && len(stuck) == 0 {
+		add("C16/fixed-point-not-quiet/-F-logs-without-changing/"+c04FileKind(last.Fixes[0].Path)+"/"+c04FixKind(last.Fixes[0].Msg),
+			fmt.Sprintf("[%s] pass %d of pkglint -F printed %d AUTOFIX lines (e.g. %q) and changed nothing, while -f prints none", cfg, len(obs.Passes), len(last.Fixes), last.Fixes[0].Raw))
 	}
 	return fs, obs
+}
+
+// c16FileKind: like c04FileKind, but buildlink3.mk and options.mk are kinds of their own
+func c16FileKind(p string) string {
+	switch b := filepath.Base(p); b {
+	case "buildlink3.mk", "options.mk", "Makefile.common":
+		return b
+	case "Makefile":
+		if strings.Count(filepath.Clean(p), "/") == 1 {
+			return "category Makefile"
+		}
+	}
+	return c04FileKind(p)
+}
+
+type c16Stuck struct {
+	fix   Diag
+	owner string // kind of the diagnostic the action belongs to
+	diag  string
+}
+
+// c16Owners pairs every AUTOFIX line of a -f output with the diagnostic printed before it.
+func c16Owners(stdout string) []c16Stuck {
+	var out []c16Stuck
+	var owner *Diag
+	for _, l := range strings.Split(stdout, "\n") {
+		d, ok := ParseDiag(l)
+		if !ok {
+			continue
+		}
+		d.Path = filepath.Clean(d.Path)
+		if d.Level != "AUTOFIX" {
+			x := d
+			owner = &x
+			continue
+		}
+		// a silent fix has no diagnostic of its own: the line before it belongs to something else
+		if owner != nil && owner.Path == d.Path && (owner.Line1 == 0 || (d.Line1 >= owner.Line1 && d.Line1 <= owner.Line2)) {
+			out = append(out, c16Stuck{d, c04FixKind(owner.Msg), owner.Raw})
+		} else {
+			out = append(out, c16Stuck{d, "(silent) " + c04FixKind(d.Msg), ""})
+		}
+	}
+	return out
 }
 
 func c16First(ds []Diag) string {
@@ -184,6 +246,7 @@ func c16WholeRun(ctx *Ctx, res *Result, rng *Rng, ntrees int) {
 		os.RemoveAll(g.Root)
 		if i%4 != 0 {
 			c04Augment(r.Fork(), tf, g.Pkgs, opts.Density, g.Features)
+			c04Augment2(r.Fork(), tf, g.Pkgs, opts.Density, g.Features)
 		}
 		fs, obs := c16Evaluate(ctx, dir, tf, nil)
 		res.mu.Lock()
@@ -417,7 +480,7 @@ func c16Floors(res *Result, ntrees int) {
 		}
 	}
 	sort.Strings(kinds)
-	if len(kinds) < 20 {
+	if len(kinds) < 45 && res.Broken == "" {
 		res.Broken = fmt.Sprintf("only %d distinct fix sites fired", len(kinds))
 	}
 }
